@@ -77,6 +77,13 @@ package storage
 //@   ensures[cell.new] fresh(ic(n, old(cnt(n)))) && ic(n, old(cnt(n))).key == key && ic(n, old(cnt(n))).fileOffset == fileOffset
 //@   ensures[arrays] (base(n.offsets) == old(base(n.offsets)) || fresh(n.offsets)) && (base(n.internalCells) == old(base(n.internalCells)) || fresh(n.internalCells))
 
+//@ func (n *btreeNode) insertInternalCell(offset uint32, key uint32, fileOffset uint64) error
+//@   props C01 C11
+//@   trusted
+//@   requires !n.isLeaf && slotsOK(n) && offset <= cnt(n) && cnt(n) < 65535 && len(n.internalCells) < 65535
+//@   modifies n.offsets, n.internalCells, elems(n.offsets), elems(n.internalCells), all(internalCell.fileOffset)
+//@   ensures result == nil && cnt(n) == old(cnt(n)) + 1 && slotsOK(n)
+
 //@ func (n *btreeNode) insertLeafCell(offset uint32, key uint32, value []byte) error
 //@   props C01 C08 C11 C14
 //@   requires n.isLeaf && slotsOK(n) && offset <= cnt(n) && len(n.leafCells) < 65535 && cnt(n) < 65535
@@ -389,47 +396,53 @@ package storage
 //@         (cnt(cur) >= 1 ==> key(parent, cnt(parent)-1) <= key(cur,0))) }
 //@ spec pred leafCellIs(n *btreeNode, i int, k uint32, v []byte) { lc(n,i).key == k && lc(n,i).valueBytes == v && lc(n,i).valueSize == len(v) && !lc(n,i).deleted }
 
-// (work in progress: the one-level functional contract of insertLeaf is parked; lines start with //.@ so that govc ignores them)
-//.@ func (b *BTree) insertLeaf(parent *btreeNode, curNode *btreeNode, key uint32, nextLSN uint64, value []byte) error
-//.@   props C01 C11 C02 C14
-//.@   prune
-//.@   requires btOK(b) && curNode != nil && leafOK(curNode)
-//.@   requires parent != nil ==> intOK(parent) && parent != curNode && cnt(parent) >= 1
-//.@   assume[A-ASC.leaf] keyAbsent(curNode, key) ==> ascLeaf(parent, curNode, key)
-//.@   modifies curNode.offsets, curNode.leafCells, elems(curNode.offsets), elems(curNode.leafCells), curNode.dirty, curNode.lastLSN,
-//.@            curNode.hasRSib, curNode.rSibFileOffset, parent.offsets, parent.internalCells, elems(parent.offsets), elems(parent.internalCells),
-//.@            parent.rightOffset, parent.dirty, parent.lastLSN, b.rootOffset, fsOf(b).nextFreeOffset,
-//.@            listLen(fsOf(b).cache.list), listAt(fsOf(b).cache.list), listPos, listOf, mapof(fsOf(b).cache.cache), all(cacheEntry.val)
-//.@   ensures[bt] btOK(b)
-//.@   ensures[dup; C01 C14] !old(keyAbsent(curNode, key)) ==> result != nil
-//.@   ensures[toolarge; C08 C14] old(keyAbsent(curNode, key)) && len(value) > maxValue ==> result == ErrRowTooLarge
-//.@   ensures[err.frame; C14] (!old(keyAbsent(curNode, key)) || len(value) > maxValue) ==>
-//.@              curNode.offsets == old(curNode.offsets) && curNode.leafCells == old(curNode.leafCells) && curNode.dirty == old(curNode.dirty) &&
-//.@              curNode.lastLSN == old(curNode.lastLSN) && b.rootOffset == old(b.rootOffset) && fsOf(b).nextFreeOffset == old(fsOf(b).nextFreeOffset) &&
-//.@              (forall i int :: 0 <= i && i < cnt(curNode) ==> lc(curNode,i) == old(lc(curNode,i)))
-//.@   ensures[nosplit; C01] result == nil && old(cnt(curNode)) + 1 < maxLeaf ==>
-//.@              cnt(curNode) == old(cnt(curNode)) + 1 && leafCellIs(curNode, old(cnt(curNode)), key, value) &&
-//.@              (forall i int :: 0 <= i && i < old(cnt(curNode)) ==> lc(curNode,i) == old(lc(curNode,i))) &&
-//.@              b.rootOffset == old(b.rootOffset) && !curNode.hasRSib
-//.@   ensures[nosplit.inv; C11] result == nil && old(cnt(curNode)) + 1 < maxLeaf ==> leafOK(curNode) && compact(curNode)
-//.@   ensures[stamp; C02 C04] result == nil ==> curNode.dirty && curNode.lastLSN == nextLSN
-//.@   ensures[split; C01 C11; witness np=newPg] result == nil && old(cnt(curNode)) + 1 == maxLeaf ==> exists np *btreeNode ::
-//.@              fresh(np) && np.isLeaf && cnt(curNode) == 4 && cnt(np) == 5 && leafOK(curNode) && leafOK(np) && compact(np) &&
-//.@              (forall i int :: 0 <= i && i < 4 ==> lc(curNode,i) == old(lc(curNode,i))) &&
-//.@              (forall j int :: 0 <= j && j < 4 ==> lc(np,j).key == old(lc(curNode, 4 + j).key) && lc(np,j).valueBytes == old(lc(curNode, 4 + j).valueBytes) &&
-//.@                   lc(np,j).valueSize == old(lc(curNode, 4 + j).valueSize) && lc(np,j).deleted == old(lc(curNode, 4 + j).deleted)) &&
-//.@              leafCellIs(np, 4, key, value) &&
-//.@              curNode.hasRSib && curNode.rSibFileOffset == np.fileOffset && np.hasLSib && np.lSibFileOffset == curNode.fileOffset && !np.hasRSib &&
-//.@              np.dirty && np.lastLSN == nextLSN && np.fileOffset == old(fsOf(b).nextFreeOffset)
-//.@   ensures[split.parent; C01 C11; witness np=newPg] result == nil && old(cnt(curNode)) + 1 == maxLeaf && parent != nil ==> exists np *btreeNode ::
-//.@              fresh(np) && cnt(parent) == old(cnt(parent)) + 1 && ic(parent, old(cnt(parent))).key == lc(np,0).key &&
-//.@              ic(parent, old(cnt(parent))).fileOffset == old(parent.rightOffset) && parent.rightOffset == np.fileOffset &&
-//.@              (forall i int :: 0 <= i && i < old(cnt(parent)) ==> ic(parent,i) == old(ic(parent,i))) &&
-//.@              parent.dirty && parent.lastLSN == nextLSN && b.rootOffset == old(b.rootOffset) && compact(parent)
-//.@   ensures[split.root; C01 C11; witness np=newPg root=parent$] result == nil && old(cnt(curNode)) + 1 == maxLeaf && parent == nil ==>
-//.@              exists np *btreeNode, root *btreeNode :: fresh(np) && fresh(root) && np != root && !root.isLeaf && cnt(root) == 1 &&
-//.@              ic(root,0).key == lc(np,0).key && ic(root,0).fileOffset == curNode.fileOffset && root.rightOffset == np.fileOffset &&
-//.@              b.rootOffset == root.fileOffset && root.dirty && root.lastLSN == nextLSN && compact(root) && intOK(root)
+// (work in progress: the one-level functional contract of insertLeaf is parked; lines start with //@ so that govc ignores them)
+//@ func (b *BTree) insertLeaf(parent *btreeNode, curNode *btreeNode, key uint32, nextLSN uint64, value []byte) error
+//@   props C01 C11 C02 C13 C14
+//@   prune
+//@   requires btOK(b) && fsLocked(fsOf(b)) && curNode != nil && leafOK(curNode)
+//@   requires parent != nil ==> intOK(parent) && parent != curNode && cnt(parent) >= 1
+//@   assume[A-ASC.leaf] keyAbsent(curNode, key) ==> ascLeaf(parent, curNode, key)
+//@   modifies curNode.offsets, curNode.leafCells, elems(curNode.offsets), elems(curNode.leafCells), curNode.dirty, curNode.lastLSN,
+//@            curNode.hasRSib, curNode.rSibFileOffset, parent.offsets, parent.internalCells, elems(parent.offsets), elems(parent.internalCells),
+//@            parent.rightOffset, parent.dirty, parent.lastLSN, b.rootOffset, fsOf(b).nextFreeOffset,
+//@            all(internalCell.fileOffset), all(btreeNode.lSibFileOffset), all(btreeNode.dirty), all(btreeNode.lastLSN),
+//@            listLen(fsOf(b).cache.list), listAt(fsOf(b).cache.list), listPos, listOf, mapof(fsOf(b).cache.cache), all(cacheEntry.val)
+//@   ensures[bt] btOK(b)
+//@   ensures[dup; C01 C14] !old(keyAbsent(curNode, key)) ==> result != nil
+//@   ensures[toolarge; C08 C14] old(keyAbsent(curNode, key)) && len(value) > maxValue ==> result == ErrRowTooLarge
+//@   ensures[err.frame; C14] (!old(keyAbsent(curNode, key)) || len(value) > maxValue) ==>
+//@              curNode.offsets == old(curNode.offsets) && curNode.leafCells == old(curNode.leafCells) && curNode.dirty == old(curNode.dirty) &&
+//@              curNode.lastLSN == old(curNode.lastLSN) && b.rootOffset == old(b.rootOffset) && fsOf(b).nextFreeOffset == old(fsOf(b).nextFreeOffset) &&
+//@              (forall i int :: 0 <= i && i < cnt(curNode) ==> lc(curNode,i) == old(lc(curNode,i)))
+//@   ensures[nosplit; C01] result == nil && old(cnt(curNode)) + 1 < maxLeaf ==>
+//@              cnt(curNode) == old(cnt(curNode)) + 1 && leafCellIs(curNode, old(cnt(curNode)), key, value) &&
+//@              (forall i int :: 0 <= i && i < old(cnt(curNode)) ==> lc(curNode,i) == old(lc(curNode,i))) &&
+//@              b.rootOffset == old(b.rootOffset) && !curNode.hasRSib
+//@   ensures[nosplit.inv; C11] result == nil && old(cnt(curNode)) + 1 < maxLeaf ==> leafOK(curNode) && compact(curNode)
+//@   ensures[stamp; C02 C04] result == nil ==> curNode.dirty && curNode.lastLSN == nextLSN
+//@   ensures[split.np; C01 C11; witness np=newPg] result == nil && old(cnt(curNode)) + 1 == maxLeaf ==> exists np *btreeNode ::
+//@              fresh(np) && np.isLeaf && cnt(curNode) == 4 && cnt(np) == 5 && slotsOK(curNode) && slotsOK(np) && compact(np)
+//@   ensures[split.kept; C01; witness np=newPg] result == nil && old(cnt(curNode)) + 1 == maxLeaf ==>
+//@              (forall i int :: 0 <= i && i < 4 ==> lc(curNode,i) == old(lc(curNode,i)))
+//@   ensures[split.moved; C01; witness np=newPg] result == nil && old(cnt(curNode)) + 1 == maxLeaf ==> exists np *btreeNode :: fresh(np) && np.isLeaf && cnt(np) == 5 &&
+//@              (forall j int :: 0 <= j && j < 4 ==> lc(np,j).key == old(lc(curNode, 4 + j).key) && lc(np,j).valueBytes == old(lc(curNode, 4 + j).valueBytes) &&
+//@                   lc(np,j).valueSize == old(lc(curNode, 4 + j).valueSize) && lc(np,j).deleted == old(lc(curNode, 4 + j).deleted)) &&
+//@              leafCellIs(np, 4, key, value)
+//@   ensures[split.sib; C11; witness np=newPg] result == nil && old(cnt(curNode)) + 1 == maxLeaf ==> exists np *btreeNode :: fresh(np) && np.isLeaf &&
+//@              curNode.hasRSib && curNode.rSibFileOffset == np.fileOffset && np.hasLSib && np.lSibFileOffset == curNode.fileOffset && !np.hasRSib
+//@   ensures[split.stamp; C02 C04; witness np=newPg] result == nil && old(cnt(curNode)) + 1 == maxLeaf ==> exists np *btreeNode :: fresh(np) && np.isLeaf &&
+//@              np.dirty && np.lastLSN == nextLSN && np.fileOffset == old(fsOf(b).nextFreeOffset)
+//@   ensures[split.parent; C01 C11; witness np=newPg] result == nil && old(cnt(curNode)) + 1 == maxLeaf && parent != nil ==> exists np *btreeNode ::
+//@              fresh(np) && np.isLeaf && cnt(parent) == old(cnt(parent)) + 1 && ic(parent, old(cnt(parent))).key == lc(np,0).key &&
+//@              ic(parent, old(cnt(parent))).fileOffset == old(parent.rightOffset) && parent.rightOffset == np.fileOffset
+//@   ensures[split.parent.kept; C01 C11] result == nil && old(cnt(curNode)) + 1 == maxLeaf && parent != nil ==>
+//@              (forall i int :: 0 <= i && i < old(cnt(parent)) ==> ic(parent,i) == old(ic(parent,i))) &&
+//@              parent.dirty && parent.lastLSN == nextLSN && b.rootOffset == old(b.rootOffset) && compact(parent)
+//@   ensures[split.root; C01 C11; witness np=newPg root=parent$] result == nil && old(cnt(curNode)) + 1 == maxLeaf && parent == nil ==>
+//@              exists np *btreeNode, root *btreeNode :: fresh(np) && np.isLeaf && fresh(root) && np != root && !root.isLeaf && cnt(root) == 1 &&
+//@              ic(root,0).key == lc(np,0).key && ic(root,0).fileOffset == curNode.fileOffset && root.rightOffset == np.fileOffset &&
+//@              b.rootOffset == root.fileOffset && root.dirty && root.lastLSN == nextLSN && compact(root)
 
 // ---- field lists and rows (C05 C06 C18) ----
 
@@ -807,6 +820,23 @@ package storage
 //@   ensures[L3.lsn; C02] err == nil ==> result0[0].LSN == old(rs.fs._nextLSN)
 //@   ensures[L3.op; C02] err == nil ==> result0[0].WALOp == OpInsert && result0[0].cellID == old(rs.fs.lastKey) + 1
 //@   ensures[err.early; C14] err != nil && rs.fs.lastKey == old(rs.fs.lastKey) ==> len(result0) == 0 && rs.fs._nextLSN == old(rs.fs._nextLSN)
+
+// ---- recovery (C02 C03 C04) ----
+
+//@ spec pred logWF(w WALBatch) { forall i int :: 0 <= i && i < len(w) ==> w[i] != nil && (w[i].WALOp != OpInsert ==> leafAt(w[i].pageID)) }
+//@ func (w WALBatch) replay(fs *fileStore) error
+//@   props C02 C03 C04
+//@   requires fs != nil && cacheOK(fs) && !fs.autoFlushCache && txn == 0 && logWF(w)
+//@   assume[rowid-no-wrap] fs.lastKey + len(w) <= 4294967295
+//@   assume[lsn-no-wrap] forall i int :: 0 <= i && i < len(w) ==> w[i].LSN < 18446744073709551615
+//@   modifies @treeState, @cacheState, storeState, fs._nextLSN, fs.lastKey, fs.nextFreeOffset, txn, written, all(BTree.rootOffset)
+//@   ensures[L8; C02] fs._nextLSN >= old(fs._nextLSN)
+//@   ensures[L7; C02 C03] result == nil ==> fs.lastKey >= old(fs.lastKey)
+//@   ensures[unlock; C13] txn == 0
+//@   loop 1 invariant fs != nil && cacheOK(fs) && !fs.autoFlushCache && txn == 0 && logWF(w)
+//@   loop 1 invariant [L8; C02] fs._nextLSN >= old(fs._nextLSN)
+//@   loop 1 invariant [L8.next; C02] forall i int :: 0 <= i && i <= rangeindex ==> w[i].LSN < fs._nextLSN
+//@   loop 1 invariant [L7; C02 C03] fs.lastKey >= old(fs.lastKey) && fs.lastKey <= old(fs.lastKey) + rangeindex + 1
 
 // ---- page flush and table creation under the lock typestate (C13, C04, C14) ----
 
